@@ -17,6 +17,10 @@ def concrete(m, v):
             return r.as_long()
         if v.kind == "bool":
             return z3.is_true(r)
+        if v.kind == "bv":
+            return r.as_signed_long()
+        if v.kind == "fp":
+            return float(eval(str(z3.simplify(z3.fpToReal(r))).replace("/", "/1.0/"))) if not (z3.is_fp(r) and (r.isNaN() or r.isInf())) else float("nan")
         if z3.is_algebraic_value(r):
             r = r.approx(30)
         return Fraction(r.numerator_as_long(), r.denominator_as_long())
